@@ -174,3 +174,23 @@ def selftest(Nmax=2):
 
 if __name__ == '__main__':
     print('selftest cases', selftest(2))
+
+
+# ---------------------------------------------------------------- token tables (C20): from the documented convention
+# 0 = I, 1 = X, 2 = Y, 3 = Z  keyed by (x, z);   4 = '+', 5 = '-', 6 = '+i', 7 = '-i'  keyed by the power of i
+TOKEN_TABLE = {(0, 0): 0, (1, 0): 1, (1, 1): 2, (0, 1): 3}
+PHASE_TOKEN_TABLE = {(0,): 4, (1,): 6, (2,): 5, (3,): 7}
+
+
+def TOKEN(x, z):
+    return TOKEN_TABLE[(int(x), int(z))]
+
+
+def PHASE_TOKEN(p):
+    return PHASE_TOKEN_TABLE[(int(p),)]
+
+
+TOKEN._spec_table = TOKEN_TABLE
+PHASE_TOKEN._spec_table = PHASE_TOKEN_TABLE
+SPEC_FUNCS['TOKEN'] = TOKEN
+SPEC_FUNCS['PHASE_TOKEN'] = PHASE_TOKEN
